@@ -283,12 +283,18 @@ fn run_receiver_blocking(s: &dyn IoShape, cap: CapSpec, stream: &[u8], faults: &
     let st = Rc::new(RefCell::new(SourceState { stream: stream.to_vec(), pos: 0, calls: 0, calls_in_op: 0, horizon_per_op: 2 * stream.len() + 16, faults: FaultState::default(), max_offered: 0 }));
     let outs: RefCell<Vec<(RecvOut, usize)>> = RefCell::new(vec![]);
     let errs = std::cell::Cell::new(0usize);
+    let limit = stream.len() + 8;
     let r = catch(|| {
         let pipe = ScriptRead { st: st.clone(), cfg: faults.clone(), chunking };
         let mut ctl = |o: &RecvOut| {
             let pos = st.borrow().pos;
             outs.borrow_mut().push((o.clone(), pos));
             st.borrow_mut().calls_in_op = 0;
+            // a receiver cannot yield more messages than there are bytes: stop a run-away one so that
+            // the oracle (not the watchdog) reports it
+            if outs.borrow().len() > limit {
+                return false;
+            }
             match o {
                 RecvOut::Msg { .. } => {
                     errs.set(0);
@@ -454,6 +460,9 @@ fn run_async(s: &dyn IoShape, cap: CapSpec, seq: &[Value], pipe_cap: usize, spur
         let errs = Rc::new(std::cell::Cell::new(0usize));
         let rctl = Box::new(move |o: &RecvOut| {
             r1.borrow_mut().push(o.clone());
+            if r1.borrow().len() > 64 {
+                return false;
+            }
             match o {
                 RecvOut::Msg { .. } => {
                     errs.set(0);
@@ -952,7 +961,7 @@ fn run_receiver_async_only(s: &dyn IoShape, cap: CapSpec, stream: &[u8]) -> (Vec
     let r = catch(|| {
         let rctl = Box::new(move |o: &RecvOut| {
             r1.borrow_mut().push(o.clone());
-            matches!(o, RecvOut::Msg { .. })
+            r1.borrow().len() <= 64 && matches!(o, RecvOut::Msg { .. })
         });
         let rt = s.recv_async(Box::new(ARead { p: pipe.clone(), cfg: FaultCfg::off() }), cap, rctl);
         run_tasks(vec![Some(rt)], horizon)
